@@ -16,8 +16,19 @@ Tie to the code (every run, from the working tree):
     sqfs_super_read / sqfs_id_table_read return codes (harness/h_c14.c).
  3. a sample of k is validated with real kills (OPLOG_KILL_AT): the file on disk equals the replayed prefix.
  4. `superRead`/`idTableStage` vs the real functions on structure-aware mutations of real superblocks.
+ 5. FAILING RUNS (the property quantifies over every kill point of every run, not only of successful ones): for every
+    input the packer is re-run under one failure each — (a) truncated / damaged tar stream at seeded positions
+    (tar2sqfs), a missing input file (gensquashfs); (b) an injected write fault (ENOSPC/EIO) at EVERY output-call
+    position, and "file system full at N bytes" for N at every table boundary of the reference image; (c) a failed
+    allocation at seeded positions.  The log of each such run is replayed prefix by prefix exactly like that of a
+    successful run: every state must be rejected by every reader, or be the complete reference image up to zero padding
+    (only possible when the failure is the padding write).  The log must have the model's `failShapeCheck` shape (theorem
+    `shape_failing_rejected`) with no call issued after the first failed one; `Spec.Writer.failStatusOf` is evaluated by
+    the model driver on every state.  A sample is re-run with SIGKILL in place of the cleanup unlink: the file on disk
+    must be the replayed log.  States whose bytes were already judged (they are prefixes of the fault-free run on the
+    unchanged code) are looked up by content hash instead of being given to the readers again.
 """
-import concurrent.futures, io, json, os, random, shutil, subprocess, tarfile
+import concurrent.futures, errno, hashlib, io, json, os, random, shutil, subprocess, tarfile
 import vlib, oplog
 
 LEVEL = "proof"
@@ -26,7 +37,13 @@ REQUIRED = ["Sqfs.C14.shape_prefix_rejected", "Sqfs.C14.shape_suffix_complete", 
             "Sqfs.C14.super_region_invariant", "Sqfs.C14.provisional_fields", "Sqfs.C14.prefix_rejected", "Sqfs.C14.suffix_complete",
             "Sqfs.C14.suffix_accepted", "Sqfs.C14.crash_safe", "Sqfs.C14.final_super_last", "Sqfs.C14.run_shape",
             # witness lemmas of the in-file instances (audit C): the hypotheses hold of exLog / exRun
-            "Sqfs.C14.exLog_shape", "Sqfs.C14.exRun_ok", "Sqfs.C14.exRun_valid", "Sqfs.C14.exRun_size"]
+            "Sqfs.C14.exLog_shape", "Sqfs.C14.exRun_ok", "Sqfs.C14.exRun_valid", "Sqfs.C14.exRun_size",
+            # failing runs: a run that is going to fail never commits
+            "Sqfs.C14.failing_run_never_commits", "Sqfs.C14.failing_run_stops", "Sqfs.C14.fault_position_fails",
+            "Sqfs.C14.fault_never_commits", "Sqfs.C14.input_error_never_commits", "Sqfs.C14.every_run_safe",
+            "Sqfs.C14.shape_failing_rejected", "Sqfs.C14.failing_run_shape", "Sqfs.C14.ok_run_committed",
+            "Sqfs.C14.exRun_ops_ne", "Sqfs.C14.exFailLog_shape", "Sqfs.C14.exFault_kFinal", "Sqfs.C14.exFault16",
+            "Sqfs.C14.exLimit_fails", "Sqfs.C14.exDamaged_ops"]
 SUPER = 96
 COMPS = {
     # name -> list of -X option strings (None = defaults); the non-default ones make the compressor write its
@@ -66,6 +83,8 @@ def gen_input(rng, idx, quick, force=None):
         "export": rng.random() < 0.6, "jobs": rng.choice([1, 2, 4]), "notail": rng.random() < 0.2,
         "entries": [],
     }
+    spec["packdir"] = tool == "gensquashfs" and rng.random() < 0.35          # gensquashfs --pack-dir <dir> (directory scan)
+    spec["noxattr"] = tool == "tar2sqfs" and rng.random() < 0.15             # tar2sqfs --no-xattr
     if force:
         spec.update(force)
     bs = spec["block"]
@@ -115,6 +134,9 @@ def gen_input(rng, idx, quick, force=None):
             ent.append({"t": "dir", "p": "i%04d" % i, "m": 0o755, "u": 1000 + i, "g": 5})
     if spec.get("xattr_all") and not any("x" in e for e in ent):
         ent[-1 if ent[-1]["t"] != "slink" else 0]["x"] = {"user.forced": "1"}
+    if spec.get("no_x"):
+        for e in ent:
+            e.pop("x", None)
     return spec
 
 
@@ -128,6 +150,35 @@ def packer_cmd(ctx, spec, work, tools, out):
         common.append("-e")
     if spec["notail"]:
         common.append("-T")
+    if spec["tool"] == "gensquashfs" and spec.get("packdir"):
+        root = work / "root"
+        root.mkdir(exist_ok=True)
+        xl = []
+        for e in spec["entries"]:
+            q = root / e["p"]
+            if e["t"] == "dir":
+                q.mkdir(exist_ok=True)
+            elif e["t"] == "file":
+                q.write_bytes(data_bytes(e["d"]))
+            elif e["t"] == "slink":
+                if not q.is_symlink():
+                    os.symlink(e["tgt"], q)
+            try:
+                os.chown(q, e["u"], e["g"], follow_symlinks=False)
+                if e["t"] != "slink":
+                    os.chmod(q, e["m"])
+            except OSError:
+                pass
+            if e.get("x"):
+                xl.append("# file: %s" % e["p"])
+                for k, v in e["x"].items():
+                    xl.append("%s=0x%s" % (k, v.encode().hex()))
+                xl.append("")
+        cmd = [str(tools["gensquashfs"]), "-D", str(root)] + common
+        if xl:
+            (work / "xattr.txt").write_text("\n".join(xl) + "\n")
+            cmd += ["-A", str(work / "xattr.txt")]
+        return cmd + [str(out)], None
     if spec["tool"] == "gensquashfs":
         dd = work / "data"
         dd.mkdir(exist_ok=True)
@@ -168,7 +219,7 @@ def packer_cmd(ctx, spec, work, tools, out):
                 b = data_bytes(e["d"])
                 ti.size = len(b)
                 tf.addfile(ti, io.BytesIO(b))
-    return [str(tools["tar2sqfs"])] + common + [str(out)], tp
+    return [str(tools["tar2sqfs"])] + common + (["--no-xattr"] if spec.get("noxattr") else []) + [str(out)], tp
 
 
 # ------------------------------------------------------------------------------------------------ readers
@@ -176,7 +227,8 @@ def reader_cmds(tools, spec, img):
     first = next((e["p"] for e in spec["entries"] if e["t"] == "file"), None)
     cmds = [("rdsquashfs -l /", [str(tools["rdsquashfs"]), "-l", "/", str(img)]),
             ("rdsquashfs -d", [str(tools["rdsquashfs"]), "-d", str(img)]),
-            ("sqfs2tar", [str(tools["sqfs2tar"]), str(img)])]
+            ("sqfs2tar", [str(tools["sqfs2tar"]), str(img)]),
+            ("sqfs2tar --no-xattr", [str(tools["sqfs2tar"]), "--no-xattr", str(img)])]
     if first:
         cmds.append(("rdsquashfs -c", [str(tools["rdsquashfs"]), "-c", first, str(img)]))
     return cmds
@@ -240,7 +292,7 @@ def real_short(v):
 
 
 # ------------------------------------------------------------------------------------------------ one input
-def check_input(ctx, idx, spec, tools, shim, hexe, kill_samples):
+def check_input(ctx, idx, spec, tools, shim, hexe, kill_samples, do_failing=True, only_fault=None):
     """returns a result dict; violations are reported by the caller (main thread)"""
     res = {"idx": idx, "viol": [], "nops": 0, "kfinal": None, "reader_runs": 0, "features": {}, "kills": 0, "verdict_cmp": 0}
     work = ctx.scratch / ("in%d" % idx)
@@ -256,17 +308,18 @@ def check_input(ctx, idx, spec, tools, shim, hexe, kill_samples):
             if f:
                 f.close()
 
-    r = pack()
+    r = pack(extra={"OPLOG_ALLOC_COUNT": 1})
     if r.returncode != 0:
         res["skip"] = "packer exit %d: %s" % (r.returncode, r.stderr[-200:].decode("latin1"))
         return res
-    ops, opens = oplog.parse_log(log)
+    lg0 = oplog.parse_log_ex(log)
+    ops, opens, allocs = lg0["ops"], lg0["opens"], lg0["allocs"]
     final = out.read_bytes()
     res["nops"] = len(ops)
     res["features"] = {
         "truncate": any(o[0] == "T" for o in ops), "options@96": len(ops) > 1 and ops[1][0] == "W" and ops[1][1] == SUPER and 2 < len(ops[1][2]) < 64 and
         int.from_bytes(ops[1][2][:2], "little") == (0x8000 | (len(ops[1][2]) - 2)),
-        "tool": spec["tool"], "comp": spec["comp"], "export": spec["export"],
+        "tool": spec["tool"], "comp": spec["comp"], "export": spec["export"], "packdir": bool(spec.get("packdir")), "noxattr": bool(spec.get("noxattr")),
         "xattr": any("x" in e for e in spec["entries"]), "size": len(final)}
     rep = {"spec": spec, "cmd": cmd}
     # -- the log replays to the file the packer left
@@ -303,20 +356,19 @@ def check_input(ctx, idx, spec, tools, shim, hexe, kill_samples):
     # -- every prefix through the real readers
     hv = Verdicts(ctx, hexe, work / "h_scratch")
     pf = work / "prefix.sqfs"
-    ref = None
     cmds = reader_cmds(tools, spec, pf)
+    states = States(ctx, hv, cmds, pf, res)
     # reference outputs from the complete image
-    pf.write_bytes(final)
-    ref = {name: run_reader(ctx, argv) for name, argv in cmds}
-    res["reader_runs"] += len(cmds)
+    ref = states.eval(final)[1]
     for name, (rc, h, err) in ref.items():
         if rc != 0:
             key = "complete-image-unreadable:%s" % spec["tool"]
             res["viol"].append((key, "the complete image of a successful %s run is rejected by %s (rc=%s %s)" % (spec["tool"], name, rc, err), rep, True))
     accepted_bad, suffix_bad = [], []
+    ref_keys = []                        # sha256 of the file at every crash point of the fault-free run
     for k, content in oplog.prefixes(ops):
-        pf.write_bytes(content)
-        rv = real_short(hv.ask("file %s" % pf))
+        ref_keys.append(hashlib.sha256(content).digest())
+        rv, rd = states.eval(content, ref_keys[-1])
         res["verdict_cmp"] += 1
         if k < len(model_v) and model_v[k] != rv:
             res["viol"].append(("corr:verdict", "model verdict %s != real sqfs_super_read/sqfs_id_table_read verdict %s on prefix %d of %d" % (model_v[k], rv, k, len(ops)),
@@ -326,8 +378,7 @@ def check_input(ctx, idx, spec, tools, shim, hexe, kill_samples):
             if content != final[:len(content)] or any(final[len(content):]):
                 suffix_bad.append((k, "bytes"))
         for name, argv in cmds:
-            rc, h, err = run_reader(ctx, argv)
-            res["reader_runs"] += 1
+            rc, h, err = rd[name]
             if before:
                 if rc == 0:
                     accepted_bad.append((k, name))
@@ -336,7 +387,6 @@ def check_input(ctx, idx, spec, tools, shim, hexe, kill_samples):
             else:
                 if (rc, h) != ref[name][:2]:
                     suffix_bad.append((k, name))
-    hv.close()
     if accepted_bad:
         k, name = accepted_bad[0]
         res["viol"].append(("accepted-prefix:%s:%s" % (spec["tool"], name.split()[0]),
@@ -359,8 +409,310 @@ def check_input(ctx, idx, spec, tools, shim, hexe, kill_samples):
         if r.returncode != -9 or got != want:
             res["viol"].append(("harness:kill-replay", "SIGKILL at output call %d: rc=%s, file on disk %s the replayed prefix" % (k, r.returncode, "==" if got == want else "!="),
                                 dict(rep, k=k), False))
+    # -- failing runs: every kill point of runs that are going to fail
+    if do_failing:
+        failing_runs(ctx, res, idx, spec, rep, cmd, stdin_path, shim, work, out, log, ops, final, kf, ref, states, allocs, only_fault,
+                     ref_keys, model_v, mon)
+    hv.close()
+    res["state_cache"] = {"distinct": len(states.cache), "hits": states.hits}
     shutil.rmtree(work, ignore_errors=True)
     return res
+
+
+class States:
+    """what the real readers (and the real sqfs_super_read/sqfs_id_table_read) say about a file, per distinct content"""
+    def __init__(self, ctx, hv, cmds, pf, res):
+        self.ctx, self.hv, self.cmds, self.pf, self.res = ctx, hv, cmds, pf, res
+        self.cache, self.hits = {}, 0
+
+    def eval(self, content, key=None):
+        key = key or hashlib.sha256(content).digest()
+        if key in self.cache:
+            self.hits += 1
+            return self.cache[key]
+        self.pf.write_bytes(content)
+        rv = real_short(self.hv.ask("file %s" % self.pf))
+        rd = {name: run_reader(self.ctx, argv) for name, argv in self.cmds}
+        self.res["reader_runs"] += len(self.cmds)
+        self.cache[key] = (rv, rd)
+        return self.cache[key]
+
+
+# ------------------------------------------------------------------------------------------------ failing runs
+ERRNO = {"ENOSPC": errno.ENOSPC, "EIO": errno.EIO}
+HAS_REF = ("fail_at", "limit", "alloc")          # the input is intact: the fault-free run's image is the complete, correct one
+
+
+def table_boundaries(final):
+    """sizes at which a full file system hits the run: every table boundary of the reference image"""
+    f8 = lambda off: int.from_bytes(final[off:off + 8], "little")
+    used, idc = f8(40), int.from_bytes(final[26:28], "little")
+    vals = {SUPER, used, used - 1}
+    for off in (48, 56, 64, 72, 80, 88):                  # id, xattr, inode, directory, fragment, export table start
+        v = f8(off)
+        if v != 2 ** 64 - 1:
+            vals.add(v)
+    vals.add(f8(48) + 8 * ((idc * 4 + 8191) // 8192))        # end of the id table = where the xattr blocks begin
+    return sorted(v for v in vals if SUPER <= v <= used)
+
+
+def tar_damage_points(rng, tar_path, ncut, ndamage):
+    """seeded cut positions (inside headers, inside file data, at odd places) and header bytes to flip"""
+    out = []
+    size = os.path.getsize(tar_path)
+    with tarfile.open(tar_path) as tf:
+        mem = [(m.offset, m.offset_data, m.size if m.isreg() else 0) for m in tf.getmembers()]
+    end = max([od + sz for _, od, sz in mem] + [512])
+    cand = []
+    for off, od, sz in mem:
+        cand.append(off + rng.randint(1, 511))                     # inside a header block
+        if sz > 1:
+            cand.append(od + rng.randint(1, sz - 1))                 # inside file data
+        if sz > 1024:
+            cand.append(od + 512 * rng.randint(1, sz // 512))         # at a record boundary inside file data
+    cand = sorted(set(c for c in cand if 0 < c < end))
+    rng.shuffle(cand)
+    out += [{"kind": "cut", "at": c} for c in sorted(cand[:ncut])]
+    if len(mem) > 1 and rng.random() < 0.5:
+        out.append({"kind": "cut", "at": mem[-1][0] + rng.randint(1, 511)})      # in the last header: everything before is complete
+    for off, od, sz in rng.sample(mem[1:] or mem, min(ndamage, len(mem[1:] or mem))):
+        out.append({"kind": "damage", "at": off + 148 + rng.randint(0, 5)})        # checksum field of a later header
+    return out
+
+
+def fault_variants(rng, spec, ops, final, allocs, stdin_path, quick):
+    v = []
+    for j in range(len(ops)):
+        for e in (["ENOSPC", "EIO"] if not quick else [rng.choice(["ENOSPC", "EIO"])]):
+            v.append({"kind": "fail_at", "k": j, "errno": e})
+    for n in table_boundaries(final):
+        v.append({"kind": "limit", "n": n})
+    if allocs:
+        for k in sorted(set(rng.randrange(allocs) for _ in range(3 if quick else 12))):
+            v.append({"kind": "alloc", "k": k})
+    if stdin_path:
+        v += tar_damage_points(rng, stdin_path, 3 if quick else 8, 1 if quick else 3)
+    elif not spec.get("packdir"):
+        files = [i for i, e in enumerate(spec["entries"]) if e["t"] == "file"]
+        if files:
+            v.append({"kind": "missing", "file": "c%d" % files[-1]})
+            if len(files) > 2 and not quick:
+                v.append({"kind": "missing", "file": "c%d" % files[len(files) // 2]})
+    return v
+
+
+def run_variant(shim, cmd, stdin_path, out, log, var, work, extra=None, timeout=60):
+    """one packer run under the failure `var`; returns CompletedProcess or None (timeout)"""
+    ex, fail_at, sp, undo = dict(extra or {}), None, stdin_path, None
+    k = var["kind"]
+    if k == "fail_at":
+        fail_at = "%d:%d" % (var["k"], ERRNO[var["errno"]])
+    elif k == "limit":
+        ex["OPLOG_LIMIT"] = var["n"]
+    elif k == "alloc":
+        ex["OPLOG_ALLOC_FAIL"] = var["k"]
+    elif k in ("cut", "damage"):
+        b = bytearray(stdin_path.read_bytes())
+        if k == "cut":
+            del b[var["at"]:]
+        else:
+            b[var["at"]] ^= 0xFF
+        sp = work / "in.var.tar"
+        sp.write_bytes(b)
+    elif k == "missing":
+        src = work / "data" / var["file"]
+        os.rename(src, str(src) + ".away")
+        undo = lambda: os.rename(str(src) + ".away", src)
+    if out.exists():
+        out.unlink()
+    f = open(sp, "rb") if sp else None
+    try:
+        return oplog.run_logged(shim, cmd, out, log, stdin=f, fail_at=fail_at, extra=ex, timeout=timeout)
+    except subprocess.TimeoutExpired:
+        return None
+    finally:
+        if f:
+            f.close()
+        if undo:
+            undo()
+
+
+def var_name(var):
+    return {"fail_at": "write-fault", "limit": "disk-full", "alloc": "alloc-fault", "cut": "truncated-input", "damage": "damaged-input",
+            "missing": "missing-input"}[var["kind"]]
+
+
+def prefix_at(ops, k):
+    buf = bytearray()
+    for op in ops[:k]:
+        oplog.apply_op(buf, op)
+    return bytes(buf)
+
+
+def failing_runs(ctx, res, idx, spec, rep, cmd, stdin_path, shim, work, out, log, ops, final, kf, ref, states, allocs, only_fault,
+                 ref_keys, ref_model_v, ref_mon):
+    """run the packer under every failure variant, replay every prefix of every log (module docstring, 5.).
+    On unchanged code the log of a failing run is a prefix of the fault-free log (`m == n` below): its states are states of
+    the fault-free run, already materialised, hashed, read by the readers and judged by the model; only what differs is
+    materialised and sent to the readers / the model again."""
+    quick = ctx.quick()
+    rng = random.Random("C14-fault/%d/%d" % (ctx.seed, idx))
+    variants = [only_fault] if only_fault else fault_variants(rng, spec, ops, final, allocs, stdin_path, quick)
+    variants.sort(key=lambda v: 0 if v["kind"] in HAS_REF else 1)
+    fr = res["failing"] = {"runs": 0, "by_kind": {}, "exit0": 0, "died": 0, "timeouts": 0, "prefixes": 0, "new_states": 0, "committed": 0,
+                           "ops_after_failure": 0, "unlinked": 0, "left_at_exit": 0, "kill_at_unlink": 0, "no_fault_fired": 0, "viol_variants": 0,
+                           "logs_prefix_of_reference": 0}
+    ref_complete = [kf is not None and k >= kf for k in range(len(ops) + 1)]     # (bytes + reader output were compared in the main loop)
+    # phase 1: the runs
+    runs = []
+    for var in variants:
+        r = run_variant(shim, cmd, stdin_path, out, log, var, work, timeout=30 if var["kind"] == "alloc" else 60)
+        lg = oplog.parse_log_ex(log)
+        left = out.read_bytes() if out.exists() else None
+        fops = lg["ops"]
+        m = 0
+        while m < len(fops) and m < len(ops) and fops[m] == ops[m]:
+            m += 1
+        lg["n"], lg["m"] = len(fops), m
+        if m == len(fops):
+            lg["ops"] = None                                     # a prefix of the fault-free log: nothing to keep
+            fr["logs_prefix_of_reference"] += 1
+        runs.append((var, r.returncode if r is not None else "timeout", lg, left))
+        fr["runs"] += 1
+        fr["by_kind"][var_name(var)] = fr["by_kind"].get(var_name(var), 0) + 1
+    # phase 2: the model (one driver call): failShapeCheck on every log; Spec.Writer.failStatusOf and the verdict per prefix
+    # on logs that are not a prefix of the fault-free log (for those the values are the ones of the fault-free run's states)
+    dl = ["reset"] + oplog.driver_lines(ops) + ["savelog", "ref %s" % final.hex()]
+    ref_on, where = True, []
+    for var, rc, lg, left in runs:
+        w = {}
+        fpos = (lg["fails"][0][0] if lg["fails"] else lg["n"]) if rc != 0 else None
+        if lg["ops"] is None:
+            dl.append("uselog %d" % lg["n"])
+        else:
+            if (var["kind"] in HAS_REF) != ref_on:
+                dl.append("ref -" if ref_on else "ref %s" % final.hex())
+                ref_on = not ref_on
+            dl += ["newlog"] + oplog.driver_lines(lg["ops"])
+        if fpos is not None:
+            dl.append("failpos %d" % fpos)
+        w["failshape"] = len(dl)
+        dl.append("failshape")
+        if lg["ops"] is not None:
+            w["monitorfail"] = len(dl)
+            dl.append("monitorfail")
+            w["prefixes"] = len(dl)
+            dl.append("prefixes")
+        where.append(w)
+    mo = ctx.driver(["c14"], "\n".join(dl) + "\n")
+    if len(mo) != len(dl):
+        res["viol"].append(("harness:driver-fail-batch", "model driver answered %d of %d lines of the failing-run batch" % (len(mo), len(dl)), rep, False))
+        return
+    # phase 3: every prefix of every log: the real readers (by content) and the model
+    kill_cands = []
+    for (var, rc, lg, left), w in zip(runs, where):
+        fops, n, m = lg["ops"], lg["n"], lg["m"]
+        vrep = dict(rep, fault=var, rc=rc)
+        has_ref = var["kind"] in HAS_REF
+        name = var_name(var)
+        nviol = len(res["viol"])
+        if fops is not None and any(o[0] == "X" for o in fops):
+            res["viol"].append(("shape:foreign-call:%s" % spec["tool"], "failing run (%s): output file modified by a call the protocol model does not know" % name, vrep, False))
+            continue
+        if rc == 0:
+            # the failure was not noticed or never happened (cut behind the last entry, allocation the code can do without)
+            fr["exit0"] += 1
+            if not lg["fails"] and lg["allocfail"] is None and has_ref:
+                fr["no_fault_fired"] += 1
+            if has_ref and left is not None and left != final:
+                rd = states.eval(left)[1]
+                if any(rd[nm][:2] != ref[nm][:2] for nm in rd):
+                    res["viol"].append(("wrong-image-after-fault:%s" % spec["tool"], "%s under %s exits 0 but the image it leaves does not read like the image of the "
+                                        "fault-free run" % (spec["tool"], name), vrep, True))
+            continue
+        if rc == "timeout":
+            fr["timeouts"] += 1
+        elif rc < 0:
+            fr["died"] += 1
+        if lg["unlinked"]:
+            fr["unlinked"] += 1
+        shape_line = mo[w["failshape"]]
+        after = int(shape_line.split("after=")[1]) if "after=" in shape_line else -1
+        fshape = shape_line.startswith("failshape ok")
+        committed = has_ref and kf is not None and n >= kf and m == n                  # the failure came after the commit (padding)
+        fr["committed"] += int(committed)
+        fr["ops_after_failure"] += max(after, 0)
+        # the states: (k, sha256, content or None, complete-by-bytes)
+        sts = [(k, ref_keys[k], None, has_ref and ref_complete[k]) for k in range(min(m, n) + 1)]
+        if m < n:
+            buf = bytearray(prefix_at(ops, m))
+            for k in range(m, n):
+                oplog.apply_op(buf, fops[k])
+                c = bytes(buf)
+                sts.append((k + 1, hashlib.sha256(c).digest(), c, has_ref and len(c) >= SUPER and c == final[:len(c)] and not any(final[len(c):])))
+            model_v = mo[w["prefixes"]].split()[1:]
+            mon = mo[w["monitorfail"]].split()[1] if len(mo[w["monitorfail"]].split()) > 1 else ""
+        else:
+            model_v = ref_model_v[:n + 1]
+            mon = "".join(("R" if ch == "R" else ("C" if ch == "C" and has_ref else "X")) for ch in ref_mon[:n + 1])
+        if left is not None:
+            fr["left_at_exit"] += 1
+            if hashlib.sha256(left).digest() != sts[-1][1]:
+                res["viol"].append(("harness:replay-differs-failing", "failing run (%s): the file left at exit is not the replayed log" % name, vrep, False))
+        accepted, newst = [], 0
+        for k, key, content, cbytes in sts:
+            fr["prefixes"] += 1
+            before = len(states.cache)
+            rv, rd = states.eval(content, key)
+            newst += len(states.cache) - before
+            res["verdict_cmp"] += 1
+            if k < len(model_v) and model_v[k] != rv:
+                res["viol"].append(("corr:verdict", "model verdict %s != real verdict %s on prefix %d of %d of a failing run (%s)" % (model_v[k], rv, k, n, name),
+                                    dict(vrep, k=k), False))
+            complete = cbytes and all(rd[nm][:2] == ref[nm][:2] for nm in rd)
+            for nm in rd:
+                rcr = rd[nm][0]
+                if rcr == 0 and not complete:
+                    accepted.append((k, nm))
+                elif rcr != 0 and not clean_failure(rcr):
+                    res["viol"].append(("reader-crash:%s" % nm, "%s on prefix %d/%d of a failing %s run (%s): rc=%s %s" % (nm, k, n, spec["tool"], name, rcr, rd[nm][2]),
+                                        dict(vrep, k=k), True))
+        fr["new_states"] += newst
+        if accepted:
+            k, nm = accepted[0]
+            res["viol"].append(("accepted-failing-run:%s:%s" % (spec["tool"], name),
+                                "%s run that FAILS (%s, exit status %s): after a kill at output call %d of %d %s accepts the file (exit 0) although it is not the "
+                                "complete image; %d accepted (k,reader) pairs; failed calls: %s" % (
+                                    spec["tool"], name, rc, k, n, nm, len(accepted), [f[3] for f in lg["fails"]][:3]),
+                                dict(vrep, k=k, accepted=accepted[:20]), True))
+        if "X" in mon or len(mon) != n + 1:
+            res["viol"].append(("spec-monitor-fail:%s" % spec["tool"], "Spec.Writer.failStatusOf on the log of a failing run (%s): crash point %d of %d is accepted by the "
+                                "model of the readers and is not the complete image (%s)" % (name, mon.find("X"), n, mon), dict(vrep, k=mon.find("X")), bool(accepted)))
+        if not committed and (not fshape or after != 0):
+            allops = ops[:m] + (fops[m:] if fops is not None else [])
+            res["viol"].append(("shape-fail:%s" % spec["tool"], "the log of a failing %s run (%s, exit status %s) does not have the model's shape of a failed run: %s "
+                                "(%d calls after the first failed one; a write at offset 0 after the provisional superblock is a commit)" % (
+                                    spec["tool"], name, rc, shape_line, after),
+                                dict(vrep, ops=[(o[0], o[1], len(o[2]) if o[0] == "W" else None) for o in allops][:200]), bool(accepted)))
+        if len(res["viol"]) > nviol:
+            fr["viol_variants"] += 1
+        if lg["unlinked"] and var["kind"] != "alloc":
+            kill_cands.append((var, sts[-1][1], name, vrep, has_ref and sts[-1][3], n))
+    # phase 4: real kills at the last kill point of a failing run (instead of the cleanup unlink)
+    rng.shuffle(kill_cands)
+    for var, wantkey, name, vrep, cbytes, n in kill_cands[:(2 if quick else 6)] if not only_fault else kill_cands:
+        r = run_variant(shim, cmd, stdin_path, out, log, var, work, extra={"OPLOG_KILL_AT_UNLINK": 1})
+        fr["kill_at_unlink"] += 1
+        got = out.read_bytes() if out.exists() else None
+        same = got is not None and hashlib.sha256(got).digest() == wantkey
+        if r is None or r.returncode != -9 or not same:
+            res["viol"].append(("harness:kill-unlink-replay", "failing run (%s) killed in place of the cleanup unlink: rc=%s, file on disk %s the replayed log" % (
+                name, None if r is None else r.returncode, "==" if same else "!="), vrep, False))
+        else:
+            rd = states.eval(got, wantkey)[1]
+            if any(rd[nm][0] == 0 for nm in rd) and not cbytes:
+                res["viol"].append(("accepted-failing-run:%s:%s" % (spec["tool"], name), "%s run that fails (%s), killed just before its cleanup unlink: the file on disk is "
+                                    "accepted by a reader" % (spec["tool"], name), dict(vrep, k=n), True))
 
 
 # ------------------------------------------------------------------------------------------------ superblock fuzz
@@ -498,30 +850,64 @@ def gen_script(rng):
     return L, skeleton
 
 
+def fails_line(x):
+    return "rc=-" in x or "ret=-" in x
+
+
+def gen_fault_scripts(ctx, n):
+    """scripts of a run subjected to a failure (`fault k`: the k-th output call fails; `limit n`: the file cannot grow
+    beyond n bytes).  The library has no sticky error — the *callers* stop —, so each script ends after the first call that
+    reports an error; where that is comes from a first pass through the model."""
+    rng = ctx.rng
+    raw = []
+    for _ in range(n):
+        L, skel = gen_script(rng)
+        while not skel or len(L) < 6:
+            L, skel = gen_script(rng)
+        head = "fault %d" % rng.choice([0, 1, 2, 3, rng.randint(0, 12), rng.randint(0, 40)]) if rng.random() < 0.6 else \
+            "limit %d" % rng.choice([0, 95, 96, 97, 104, rng.randint(96, 400), rng.randint(96, 20000), rng.randint(96, 200000)])
+        raw.append([head] + L)
+    out = ctx.driver(["c14"], "\n".join("\n".join(L) for L in raw) + "\n")
+    res, pos = [], 0
+    for L in raw:
+        a = out[pos:pos + len(L)]
+        pos += len(L)
+        k = next((i for i, x in enumerate(a) if fails_line(x)), None)
+        res.append((L if k is None else L[:k + 1] + ["end"], False, k is not None))
+    return res
+
+
 def script_corr(ctx, hscript, n):
     """the real library writers (stub compressor, link-time wrapped pwrite/ftruncate) vs the model, line by line"""
     scripts = []
     cdir = vlib.CORPUS / "C14"
     if cdir.exists():
         for p in sorted(cdir.glob("*.script")):
-            scripts.append(([l for l in p.read_text().splitlines() if l.strip()], True))
+            scripts.append(([l for l in p.read_text().splitlines() if l.strip()], True, False))
     ncorpus = len(scripts)
-    scripts += [gen_script(ctx.rng) for _ in range(n)]
+    scripts += [g + (False,) for g in (gen_script(ctx.rng) for _ in range(n))]
+    scripts += gen_fault_scripts(ctx, max(4, n // 3))
     n = len(scripts)
-    text = "\n".join("\n".join(L) for L, _ in scripts) + "\n"
+    text = "\n".join("\n".join(L) for L, _, _ in scripts) + "\n"
     r = vlib.sh([str(hscript), str(ctx.scratch / "script.out"), "script"], input=text, env=ctx.san_env(), timeout=3000)
     real = r.stdout.splitlines()
     model = ctx.driver(["c14"], text)
-    stats = {"scripts": n, "corpus_scripts": ncorpus, "lines": 0, "mismatching_scripts": 0, "ops": 0, "truncates": 0, "shape_checked": 0, "errors_hit": 0}
+    stats = {"scripts": n, "corpus_scripts": ncorpus, "lines": 0, "mismatching_scripts": 0, "ops": 0, "truncates": 0, "shape_checked": 0, "errors_hit": 0,
+             "fault_scripts": sum(1 for s_ in scripts if s_[0][0].startswith(("fault", "limit"))), "fault_scripts_failed": 0, "failshape_checked": 0}
     bad = []
     if r.returncode != 0:
         bad.append({"what": "harness aborted rc=%d" % r.returncode, "stderr": r.stderr[-1500:]})
     pos = 0
     shape_in, shape_idx = [], []
-    for si, (L, skel) in enumerate(scripts):
+    fshape_in, fshape_idx = [], []
+    for si, (L, skel, faulted) in enumerate(scripts):
         a, b = real[pos:pos + len(L)], model[pos:pos + len(L)]
         pos += len(L)
         stats["lines"] += len(L)
+        # on the line that reports the failure only the return value is compared: what the structures hold after a failed call is
+        # not observable in the protocol (every caller returns at once)
+        a = [x.split()[0] if fails_line(x) else x for x in a]
+        b = [x.split()[0] if fails_line(x) else x for x in b]
         if a != b or len(a) != len(L):
             stats["mismatching_scripts"] += 1
             k = next((i for i, (x, y) in enumerate(zip(a, b)) if x != y), min(len(a), len(b)))
@@ -529,8 +915,21 @@ def script_corr(ctx, hscript, n):
                 bad.append({"script": L[:k + 1] + ["end"], "line": L[k] if k < len(L) else None,
                             "real": a[k][:300] if k < len(a) else None, "model": b[k][:300] if k < len(b) else None})
             continue
-        if any(("rc=-" in x or "ret=-" in x) for x in a):
+        if any(fails_line(x) for x in a):
             stats["errors_hit"] += 1
+            if faulted:
+                # a failed run in skeleton order: what was issued must have the model's shape of a failed run
+                stats["fault_scripts_failed"] += 1
+                fops = [t.split() for t in a[-1][4:].split(" ; ") if t.strip()]
+                flines = ["reset"] + [("W %s %s" % (t[1], t[2])) if t[0] == "W" else ("T %s" % t[1]) for t in fops]
+                if L[-2].startswith("pad"):
+                    # the failure came after the commit (only the padding failed): the log is that of a complete run without padding
+                    stats["fault_scripts_failed_in_padding"] = stats.get("fault_scripts_failed_in_padding", 0) + 1
+                    shape_in += flines + ["shape"]
+                    shape_idx.append(si)
+                else:
+                    fshape_in += flines + ["failshape"]
+                    fshape_idx.append(si)
             continue
         ops = [t.split() for t in a[-1][4:].split(" ; ") if t.strip()]
         stats["ops"] += len(ops)
@@ -545,6 +944,13 @@ def script_corr(ctx, hscript, n):
         for si, sl in zip(shape_idx, shapes):
             if not sl.startswith("shape ok") and len(bad) < 5:
                 bad.append({"script": scripts[si][0], "what": "log of the real library writers in skeleton order fails shapeCheck: " + sl})
+    if fshape_in:
+        out = ctx.driver(["c14"], "\n".join(fshape_in) + "\n")
+        shapes = [x for x in out if x.startswith("failshape")]
+        stats["failshape_checked"] = len(shapes)
+        for si, sl in zip(fshape_idx, shapes):
+            if not sl.startswith("failshape ok") and len(bad) < 5:
+                bad.append({"script": scripts[si][0], "what": "log of the real library writers under an injected failure fails failShapeCheck: " + sl})
     return stats, bad
 
 
@@ -570,9 +976,12 @@ def inputs_for(ctx):
             specs.append(json.loads(p.read_text()))
     ncorpus = len(specs)
     # fixed coverage of the table kinds, then random
-    forced = [{"tool": "gensquashfs", "comp": "xz", "xopts": "dictsize=8K", "export": True, "block": 4096, "xattr_all": True, "force_dup": True},
-              {"tool": "tar2sqfs", "comp": "gzip", "xopts": "level=5", "export": True, "block": 4096, "xattr_all": True, "force_dup": True},
-              {"tool": "gensquashfs", "comp": "zstd", "xopts": None, "export": False, "block": 8192, "many_ids": 2100 if not quick else 300}]
+    forced = [{"tool": "gensquashfs", "comp": "xz", "xopts": "dictsize=8K", "export": True, "block": 4096, "xattr_all": True, "force_dup": True, "packdir": False},
+              {"tool": "tar2sqfs", "comp": "gzip", "xopts": "level=5", "export": True, "block": 4096, "xattr_all": True, "force_dup": True, "noxattr": False},
+              {"tool": "gensquashfs", "comp": "zstd", "xopts": None, "export": False, "block": 8192, "many_ids": 2100 if not quick else 300, "packdir": False},
+              {"tool": "gensquashfs", "comp": "gzip", "xopts": None, "export": True, "block": 4096, "xattr_all": True, "packdir": True},
+              {"tool": "tar2sqfs", "comp": "lz4", "xopts": None, "export": False, "block": 8192, "no_x": True, "noxattr": False},
+              {"tool": "gensquashfs", "comp": "lzma", "xopts": None, "export": True, "block": 4096, "no_x": True, "packdir": False}]
     for i in range(n):
         specs.append(gen_input(ctx.rng, i, quick, forced[i] if i < len(forced) else None))
     return specs, ncorpus
@@ -621,6 +1030,17 @@ def run(ctx):
         ctx.log("packer refused a generated input:", sk)
     if len(done) < max(1, len(results) // 2):
         ctx.violation("harness:packer-failures", "most generated inputs were refused by the packers: %s" % skipped[:3], {"skipped": skipped[:10]}, found_input=False)
+    fail_tot = {}
+    for r in done:
+        for k, v in r.get("failing", {}).items():
+            if isinstance(v, dict):
+                d = fail_tot.setdefault(k, {})
+                for kk, vv in v.items():
+                    d[kk] = d.get(kk, 0) + vv
+            else:
+                fail_tot[k] = fail_tot.get(k, 0) + v
+    if done and not fail_tot.get("runs"):
+        ctx.violation("harness:no-failing-runs", "no failing packer run was exercised", {}, found_input=False)
     feat = {}
     for r in done:
         for k, v in r["features"].items():
@@ -634,7 +1054,11 @@ def run(ctx):
         "distinct_nontrivial": sum(1 for r in done if r["nops"] >= 8 and r.get("shape_ok")),
         "rule": "one evaluation = one real reader run or one model-vs-real verdict comparison on a materialised prefix, plus superblock-fuzz cases; "
                 "non-trivial = packer run whose log has ≥ 8 output calls and the model's shape; inputs: %d corpus + %d generated (3 forced: xz+options+export+xattr, "
-                "tar2sqfs gzip+options+export+xattr, many ids), every prefix k = 0..n of every log" % (ncorpus, len(specs) - ncorpus),
+                "tar2sqfs gzip+options+export+xattr, many ids, pack-dir+xattr, two without any xattr), every prefix k = 0..n of every log; "
+                "failing runs: per input one run per output-call position (ENOSPC/EIO), per table boundary (disk full), seeded tar cuts/damage or a "
+                "missing input file, seeded allocation faults; every prefix of every such log, judged by content" % (ncorpus, len(specs) - ncorpus),
+        "failing_runs": fail_tot,
+        "state_cache": {"distinct": sum(r.get("state_cache", {}).get("distinct", 0) for r in done), "hits": sum(r.get("state_cache", {}).get("hits", 0) for r in done)},
         "exhaustive_per_input": True,
         "inputs": len(done), "inputs_skipped": len(skipped), "prefixes": sum(r["nops"] + 1 for r in done),
         "reader_runs": sum(r["reader_runs"] for r in done), "verdict_comparisons": sum(r["verdict_cmp"] for r in done),
@@ -646,6 +1070,8 @@ def run(ctx):
     return ctx.finish(LEVEL, trusted_extra=[
         "harness/shim_oplog.c logs every pwrite/ftruncate on the output file; POSIX semantics of those two calls as in Sqfs.Writer.filePwrite/fileTrunc and tools/oplog.py",
         "a crash point is 'between two output-file system calls'; a torn single pwrite is outside the property's definition",
+        "failing runs: harness/shim_oplog.c makes one pwrite/ftruncate (or every growing one beyond N bytes, or one malloc/calloc/realloc after the open) fail "
+        "and logs it; the readers are deterministic, so a file state is given to them once per distinct content (sha256) and input",
         "modelled, not verified directly: the C text of the anchored files; the payloads (data blocks, metadata, tables) are abstract in the model"],
         assumptions=["the page cache / file system makes completed pwrite/ftruncate calls visible in order (no reordering on power loss is claimed)"])
 
@@ -678,8 +1104,10 @@ def replay(ctx, path):
         return 1
     ctx.lean_build(["sqfsmodel"])
     tools, shim, hexe = build_all(ctx)
-    res = check_input(ctx, 0, rp["spec"], tools, shim, hexe, lambda n: [])
-    print("nops=%s kfinal=%s shape_ok=%s" % (res["nops"], res["kfinal"], res.get("shape_ok")))
+    if rp.get("fault"):
+        print("failing run:", json.dumps(rp["fault"]))
+    res = check_input(ctx, 0, rp["spec"], tools, shim, hexe, lambda n: [], do_failing=bool(rp.get("fault")), only_fault=rp.get("fault"))
+    print("nops=%s kfinal=%s shape_ok=%s failing=%s" % (res["nops"], res["kfinal"], res.get("shape_ok"), json.dumps(res.get("failing"))))
     for key, what, _, found in res["viol"]:
         print("reproduced:", key, "-", what)
     return 1 if res["viol"] else 0
